@@ -145,6 +145,7 @@ type jleaf struct {
 	kind string // str int bool bytesnil bytes
 	w    int
 	sign bool
+	raw  bool // json.RawMessage: encoded verbatim, and only if it is a JSON text
 }
 
 func jsonLeaves(t types.Type, path []int, out *[]jleaf) bool {
@@ -164,7 +165,11 @@ func jsonLeaves(t types.Type, path []int, out *[]jleaf) bool {
 		return true
 	case *types.Slice:
 		if isByteSlice(t) {
-			*out = append(*out, jleaf{path: path, sort: SBool, kind: "bytesnil"}, jleaf{path: path, sort: SString, kind: "bytes"})
+			raw := false
+			if n, ok := types.Unalias(t).(*types.Named); ok && n.Obj().Pkg() != nil && n.Obj().Pkg().Path() == "encoding/json" && n.Obj().Name() == "RawMessage" {
+				raw = true
+			}
+			*out = append(*out, jleaf{path: path, sort: SBool, kind: "bytesnil"}, jleaf{path: path, sort: SString, kind: "bytes", raw: raw})
 			return true
 		}
 		return false
@@ -215,6 +220,26 @@ func setStructAt(root *StructV, path []int, nv Value) {
 		}
 		cur = cur.fs[i].(*StructV)
 	}
+}
+
+// rawInvalid: some json.RawMessage member of sv is non-nil and not a JSON text (nil is encoded as null).
+func (ex *Exec) rawInvalid(t types.Type, sv *StructV) *Term {
+	tt := ex.tt
+	var leaves []jleaf
+	if !jsonLeaves(t, nil, &leaves) {
+		return nil
+	}
+	var bad []*Term
+	for _, l := range leaves {
+		if l.raw {
+			b := structAt(sv, l.path).(*BytesV)
+			bad = append(bad, tt.And(tt.Not(b.isNil), tt.Or(tt.Eq(b.s, tt.Str("")), tt.Not(tt.UF("jvalid_any", SBool, b.s)))))
+		}
+	}
+	if len(bad) == 0 {
+		return nil
+	}
+	return tt.Or(bad...)
 }
 
 // encStruct marshals a struct value of type t.
@@ -348,6 +373,10 @@ func init() {
 				return ok(ex.encMap(x.m))
 			}
 		case *StructV:
+			// a json.RawMessage member that is not a JSON text makes the encoder fail
+			if bad := ex.rawInvalid(t, x); bad != nil && ex.branch(bad, "marshal-invalid-raw") {
+				return &TupleV{vs: []Value{&BytesV{isNil: tt.Bool(true), s: tt.Str("")}, ex.opaqueErr("json: error calling MarshalJSON for type json.RawMessage")}}
+			}
 			if e, k := ex.encStruct(t, x); k {
 				return ok(e)
 			}
